@@ -36,12 +36,16 @@ CMD_NAMES = ('x', 'y', 'foo', 'bar', 'emph', 'textit', 'ref', 'cite', 'alpha', '
 DICT_BASELINE = frozenset(['Active', 'Alignment', 'Big', 'Bigg', 'BraceGroup', 'BracketBegin', 'BracketEnd', 'BracketGroup', 'CategoryCodes', 'CommandName', 'Comment', 'DisplayMathGroupBegin', 'DisplayMathGroupEnd', 'DisplayMathSwitch', 'EndOfLine', 'Escape', 'EscapedComment', 'GroupBegin', 'GroupEnd', 'Ignored', 'Invalid', 'Letter', 'LineBreak', 'Macro', 'MathGroupBegin', 'MathGroupEnd', 'MathSwitch', 'MergedSpacer', 'Other', 'ParenBegin', 'ParenEnd', 'PunctuationCommandName', 'SizeCommand', 'Spacer', 'Subscript', 'Superscript', 'TexArgs', 'TexCmd', 'TexDisplayMathEnv', 'TexDisplayMathModeEnv', 'TexEnv', 'TexGroup', 'TexMathEnv', 'TexMathModeEnv', 'TexNamedEnv', 'TexNode', 'TexText', 'Text', 'TokenCode', 'Verbatim', 'align', 'align*', 'alignat', 'array', 'begin', 'big', 'bigg', 'cap', 'comment', 'cup', 'def', 'displaymath', 'end', 'eqnarray', 'eqnarray*', 'equation', 'equation*', 'flalign', 'flalign*', 'gather', 'gather*', 'ignore', 'in', 'infty', 'item', 'iterator', 'label', 'langle', 'lbrack', 'lceil', 'left', 'lfloor', 'listing', 'lstlisting', 'math', 'multline', 'multline*', 'name', 'newcommand', 'noindent', 'notin', 'providecommand', 'rangle', 'rbrack', 'rceil', 'renewcommand', 'rfloor', 'right', 'section', 'spacers', 'split', 'string', 'symbols', 'text', 'textbf', 'tokenize', 'ulcorner', 'urcorner', 'verbatim', 'verbatimtab'])
 
 
+IDENT_BASELINE = frozenset(['Active', 'Alignment', 'BraceGroup', 'BracketBegin', 'BracketEnd', 'BracketGroup', 'Buffer', 'CC', 'CharToLineOffset', 'CommandName', 'Comment', 'DisplayMathGroupBegin', 'DisplayMathGroupEnd', 'DisplayMathSwitch', 'EOFError', 'Empty', 'EndOfLine', 'Escape', 'EscapedComment', 'GroupBegin', 'GroupEnd', 'Ignored', 'IndexError', 'IntEnum', 'IntEnumBase', 'Invalid', 'Letter', 'LineBreak', 'Macro', 'MathGroupBegin', 'MathGroupEnd', 'MathSwitch', 'MergedSpacer', 'MixedBuffer', 'Other', 'ParenBegin', 'ParenEnd', 'PunctuationCommandName', 'SIGNATURES', 'Spacer', 'StopIteration', 'Subscript', 'Superscript', 'TC', 'TexArgs', 'TexCmd', 'TexDisplayMathEnv', 'TexDisplayMathModeEnv', 'TexEnv', 'TexExpr', 'TexGroup', 'TexMathEnv', 'TexMathModeEnv', 'TexNamedEnv', 'TexNode', 'TexSoup', 'TexText', 'TexUnNamedEnv', 'Text', 'Token', 'TypeError', 'ValueError', 'add', 'all', 'any', 'append', 'arg', 'args', 'attr', 'attrs', 'backward', 'begin', 'bisect', 'body', 'bool', 'bracket', 'buf', 'call', 'categorize', 'category', 'cc', 'chain', 'char', 'child', 'children', 'chr', 'class', 'classmethod', 'clear', 'clo', 'cls', 'coerce', 'command', 'condition', 'contains', 'content', 'contents', 'copy', 'count', 'decorator', 'default', 'delete', 'depth', 'descendant', 'descendants', 'empty', 'end', 'endswith', 'enumerate', 'env', 'eq', 'error', 'explanation', 'expr', 'exprs', 'extend', 'extras', 'filter', 'find', 'finditer', 'format', 'forward', 'functools', 'get', 'getattr', 'getitem', 'glue', 'group', 'hasNext', 'hasattr', 'hash', 'iadd', 'index', 'init', 'insert', 'int', 'isinstance', 'isspace', 'item', 'items', 'iter', 'iterator', 'itertools', 'join', 'key', 'keys', 'kwargs', 'len', 'line', 'list', 'lstrip', 'map', 'mapping', 'match', 'max', 'min', 'mode', 'name', 'new', 'next', 'node', 'nodes', 'object', 'offset', 'old', 'other', 'others', 'output', 'parent', 'parse', 'parsed', 'pattern', 'peek', 'pieces', 'point', 'pop', 'position', 'prev', 'printable', 'property', 'queue', 'radd', 'range', 're', 'read', 'remove', 'replace', 'repr', 'result', 'ret', 'reverse', 'rstrip', 'self', 'set', 'setter', 'skip', 'spacer', 'src', 'start', 'startswith', 'stop', 'str', 'string', 'strip', 'stripped', 'super', 'tex', 'text', 'token', 'tokenize', 'tokenizers', 'tokens', 'tolerance', 'tuple', 'union', 'value', 'values', 'version', 'wrap', 'wrapper', 'wraps'])
+
+
 def extra_names():
     import ast
     import glob
     import os
     root = os.path.abspath(os.environ.get('VERIF_REPO', '/repo'))
     found = set()
+    idents = set()
     for f in sorted(glob.glob(os.path.join(root, 'TexSoup', '*.py'))):
         try:
             tree = ast.parse(open(f, encoding='utf-8').read())
@@ -50,11 +54,18 @@ def extra_names():
         for n in ast.walk(tree):
             if isinstance(n, ast.Constant) and isinstance(n.value, str) and re.fullmatch(r'\\?[A-Za-z]{2,40}\*?', n.value):
                 found.add(n.value.lstrip('\\'))
-    return tuple(sorted(found - DICT_BASELINE))[:12]
+            # identifiers too: an attribute read on a node falls back to a search for a command of that name
+            ident = (n.attr if isinstance(n, ast.Attribute) else n.id if isinstance(n, ast.Name) else n.arg if isinstance(n, ast.arg)
+                     else n.name if isinstance(n, (ast.FunctionDef, ast.ClassDef)) else None)
+            if ident and re.fullmatch(r'[A-Za-z]{2,40}', ident.strip('_')) and ident.strip('_') not in IDENT_BASELINE:
+                idents.add(ident.strip('_'))
+    return tuple(sorted(found - DICT_BASELINE))[:12] + tuple(sorted(idents - found))[:8]
 
 
 EXTRA_NAMES = extra_names()
 CMD_NAMES = CMD_NAMES + EXTRA_NAMES * 2
+ATTR_LIKE = ('deleted', 'visited', 'removed', 'dirty', 'cached', 'modified', 'index', 'hidden', 'parent', 'name', 'string', 'position',
+             'contents', 'children', 'args', 'expr', 'text', 'all', 'find', 'count', 'copy', 'src', 'cache', 'seen', 'root', 'flag')
 MATH_CMD_NAMES = ('frac', 'sqrt', 'sum', 'alpha', 'beta', 'mathbf', 'x', 'hat', 'lim', 'leftarrow', 'rightarrow',
                   'biggl', 'lefteqn', 'inf', 'Biggr', 'boldsymbol', 'operatorname', 'bar', 'vec') + tuple(n for n in EXTRA_NAMES if n.isalpha())
 ENV_NAMES = ('e', 'f', 'center', 'quote', 'tabular', 'thm', 'figure*', 'doc', 'document', 'small', 'longtableenvironmentname',
@@ -410,6 +421,9 @@ class Gen:
         if prof.twin:
             self.words = tuple(self.pick(WORDS) for _ in range(2))
             self.cmds = tuple(self.pick(CMD_NAMES) for _ in range(2))
+            if self.chance(0.2):
+                # the two names of this document are names that also exist as identifiers in a program
+                self.cmds = tuple(self.pick(ATTR_LIKE + EXTRA_NAMES) for _ in range(2))
             self.envs = tuple(self.pick(ENV_NAMES) for _ in range(2))
         else:
             self.words, self.cmds, self.envs = WORDS, CMD_NAMES, ENV_NAMES
